@@ -18,6 +18,7 @@ import (
 	"os"
 	"strconv"
 	"strings"
+	"time"
 	"unicode/utf16"
 
 	"github.com/drshriveer/gtools/gerror"
@@ -39,7 +40,7 @@ type rootDesc struct {
 }
 
 type foreignDesc struct {
-	Kind  string `json:"kind"`  // new | wrap | ptr | nilptr | slice | map | val | wrapg
+	Kind  string `json:"kind"`  // new | wrap | ptr | nilptr | slice | map | val | wrapg | nilderef | panicerr | holder | ispanic | istrue | selfwrap | unwrappanic
 	Text  string `json:"text"`  // message / contents
 	Inner int    `json:"inner"` // wrap: index of the wrapped foreign error (must precede)
 	Cell  int    `json:"cell"`  // wrapg: the gerror value (cell) wrapped with %w
@@ -60,8 +61,9 @@ type opDesc struct {
 	Fmt  string `json:"fmt"`
 	Err  ref    `json:"err"`
 	// recorded:
-	Orig string `json:"orig,omitempty"`
-	Res  int    `json:"res"`
+	Orig     string `json:"orig,omitempty"`
+	Res      int    `json:"res"`
+	Panicked string `json:"panicked,omitempty"` // the call did not return: recovered panic value
 }
 
 type caseJ struct {
@@ -70,9 +72,10 @@ type caseJ struct {
 	Foreign []foreignDesc `json:"foreign"`
 	Ops     []opDesc      `json:"ops"`
 	NCells  int           `json:"ncells"`
-	Embs    []int         `json:"embs"`    // cells whose embedded *GError also takes part in the Is matrix
-	Is      [][]int       `json:"is"`      // over cells, embs, foreign, nil
-	Extract []int         `json:"extract"` // -1 nil, 4999 unknown pointer
+	Embs    []int         `json:"embs"`            // cells whose embedded *GError also takes part in the Is matrix
+	Is      [][]int       `json:"is"`              // over cells, embs, foreign, nil
+	Extract []int         `json:"extract"`         // -1 nil, 4999 unknown pointer
+	ExtrF   []int         `json:"extract_foreign"` // ExtractFactoryReference of every foreign value: 0 nil, 1 non-nil, 2 panic
 	Note    string        `json:"note,omitempty"`
 }
 
@@ -98,6 +101,78 @@ func (e mapErr) Error() string { return fmt.Sprint(len(e)) }
 type valErr struct{ code string }
 
 func (e valErr) Error() string { return "val " + e.code }
+
+// Error values whose own methods misbehave.  gerror (through fmt, which recovers) must cope with
+// them as Convert arguments and as errors.Is targets.
+
+// derefErr: a pointer error whose Error() dereferences the receiver; used as a typed-nil pointer
+// (`var p *derefErr; return p`): a non-nil interface value whose Error() panics.
+type derefErr struct{ msg string }
+
+func (e *derefErr) Error() string { return e.msg }
+
+// panicErr: Error() always panics (non-nil receiver).
+type panicErr struct{ code string }
+
+func (e panicErr) Error() string { panic("panicErr.Error: " + e.code) }
+
+// holderErr: holds a nil error interface; Error() calls through it (nil-interface method call
+// panics), Unwrap returns the nil it holds.
+type holderErr struct {
+	tag   string
+	inner error
+}
+
+func (e holderErr) Error() string { return e.tag + ": " + e.inner.Error() }
+func (e holderErr) Unwrap() error { return e.inner }
+
+// The following are only used as Convert arguments and errors.Is TARGETS; as a source errors.Is
+// itself calls their methods (stdlib behaviour, nothing gerror can influence).
+type isPanicErr struct{ code string }
+
+func (e *isPanicErr) Error() string { return "isPanic " + e.code }
+func (e *isPanicErr) Is(error) bool { panic("isPanicErr.Is") }
+
+type isTrueErr struct{ code string }
+
+func (e *isTrueErr) Error() string { return "isTrue " + e.code }
+func (e *isTrueErr) Is(error) bool { return true }
+
+type selfWrapErr struct{ code string }
+
+func (e *selfWrapErr) Error() string { return "selfWrap " + e.code }
+func (e *selfWrapErr) Unwrap() error { return e } // a cycle
+
+type unwrapPanicErr struct{ code string }
+
+func (e *unwrapPanicErr) Error() string { return "unwrapPanic " + e.code }
+func (e *unwrapPanicErr) Unwrap() error { panic("unwrapPanicErr.Unwrap") }
+
+// deepErr: a COMPARABLE struct type with an interface-typed field.  Holding a slice there the
+// value is not comparable: reflect.TypeOf(e).Comparable() is true, e == e panics.
+type deepErr struct{ v any }
+
+func (e deepErr) Error() string { return fmt.Sprint("deep ", e.v) }
+
+// deepArr: the same with an array type.
+type deepArr [1]any
+
+func (e deepArr) Error() string { return fmt.Sprint("deepArr ", e[0]) }
+
+// hostileSource: errors.Is(e, x) with such an e runs e's own Is/Unwrap (panics, loops forever or
+// answers arbitrarily): these rows of the matrix are not evaluated (code 7).
+func hostileSource(kind string) bool {
+	switch kind {
+	case "ispanic", "istrue", "selfwrap", "unwrappanic", "nilext":
+		return true
+	}
+	return false
+}
+
+// typedNilGerror: nil pointers of gerror types.  They implement gerror.Error, so Convert returns
+// them unchanged; the generators do not pass them to Convert (in the model they are foreign
+// values: comparable, without methods).
+func typedNilGerror(kind string) bool { return kind == "nilgerr" || kind == "nilext" }
 
 type embedder interface{ Emb() *gerror.GError }
 
@@ -191,6 +266,31 @@ func (w *world) mkForeign(k int, d foreignDesc) {
 		}
 	case "nilptr":
 		e, g = (*ptrErr)(nil), "VF 3 true 0 VNil"
+	case "deepstruct": // equal contents share the payload; the value is not comparable
+		e, g = deepErr{[]string{d.Text}}, "VF 200 false "+contentID(d.Text)+" VNil"
+	case "deeparr":
+		e, g = deepArr{[]string{d.Text}}, "VF 201 false "+contentID(d.Text)+" VNil"
+	case "deepok": // the same struct type holding a comparable value
+		e, g = deepErr{d.Text}, "VF 200 true "+contentID(d.Text)+" VNil"
+	case "nilgerr": // a typed-nil *GError: implements gerror.Error, none of its fields exists
+		e, g = (*gerror.GError)(nil), "VF 50 true 0 VNil"
+	case "nilext": // a typed-nil pointer to a generated extension type (only as target: the
+		// promoted-method wrappers the compiler generates dereference it before gerror runs)
+		e, g = (*ExtA)(nil), "VF 104 true 0 VNil"
+	case "nilderef":
+		e, g = (*derefErr)(nil), "VF 7 true 0 VNil"
+	case "panicerr":
+		e, g = panicErr{d.Text}, "VF 8 true "+contentID(d.Text)+" VNil"
+	case "holder":
+		e, g = holderErr{tag: d.Text}, "VF 9 true "+contentID(d.Text)+" VNil"
+	case "ispanic":
+		e, g = &isPanicErr{d.Text}, "VF 100 true "+id+" VNil"
+	case "istrue":
+		e, g = &isTrueErr{d.Text}, "VF 101 true "+id+" VNil"
+	case "selfwrap":
+		e, g = &selfWrapErr{d.Text}, "VF 102 true "+id+" VNil"
+	case "unwrappanic":
+		e, g = &unwrapPanicErr{d.Text}, "VF 103 true "+id+" VNil"
 	case "slice":
 		e, g = sliceErr{d.Text, "x"}, "VF 4 false "+contentID(d.Text)+" VNil"
 	case "map":
@@ -289,6 +389,33 @@ func apply(f gerror.Factory, m string, o *opDesc, err error) gerror.Error {
 	panic("unknown method " + m)
 }
 
+const (
+	opTimeout = 1500 * time.Millisecond
+	maxHangs  = 3
+)
+
+var hangs int
+
+// guarded runs f with recover() and a time limit (f runs in its own goroutine; one that does not
+// return is left behind).  Returns the recovered panic value, and whether f did not return.
+func guarded(f func()) (panicVal any, hung bool) {
+	done := make(chan any, 1)
+	go func() {
+		defer func() { done <- recover() }()
+		f()
+	}()
+	t := time.NewTimer(opTimeout)
+	defer t.Stop()
+	select {
+	case pv := <-done:
+		return pv, false
+	case <-t.C:
+		hangs++
+		return nil, true
+	}
+}
+
+// isCode: 0 false, 1 true, 2 panic.
 func isCode(a, b error) (code int) {
 	defer func() {
 		if r := recover(); r != nil {
@@ -299,6 +426,24 @@ func isCode(a, b error) (code int) {
 		return 1
 	}
 	return 0
+}
+
+// isRow: errors.Is(a, b) for every b, under one watchdog; entries not reached because a call did
+// not return are 3.
+func isRow(a error, vals []error) []int {
+	row := make([]int, len(vals))
+	for j := range row {
+		row[j] = 3
+	}
+	_, hung := guarded(func() {
+		for j, b := range vals {
+			row[j] = isCode(a, b)
+		}
+	})
+	if hung {
+		return append([]int(nil), row...)
+	}
+	return row
 }
 
 func run(kind string, roots []rootDesc, foreign []foreignDesc, ops []opDesc) (caseJ, *world) {
@@ -334,18 +479,30 @@ func run(kind string, roots []rootDesc, foreign []foreignDesc, ops []opDesc) (ca
 		err := w.errOf(o.Err)
 		o.Orig = fmt.Sprintf("originalError: %+v", err)
 		var res gerror.Error
-		func() {
-			defer func() {
-				if r := recover(); r != nil {
-					c.Note += fmt.Sprintf("op %d panicked: %v; ", k, r)
-				}
-			}()
+		if hangs >= maxHangs && o.Err.K == "foreign" && w.descs[o.Err.I].Kind == "selfwrap" {
+			// several calls with such an argument did not return in this process already; every
+			// one of them leaves a spinning goroutine behind, so this one is not started
+			o.Panicked = "hang (not started: earlier calls with a self-unwrapping argument did not return)"
+			c.Note += fmt.Sprintf("op %d not started; ", k)
+			continue
+		}
+		pv, hung := guarded(func() {
+			var r gerror.Error
 			if o.M == "FactoryOf" {
-				res = factoryOfValue(w.cells[o.Recv.I].e)
+				r = factoryOfValue(w.cells[o.Recv.I].e)
 			} else {
-				res = apply(w.factoryOf(o.Recv), o.M, o, err)
+				r = apply(w.factoryOf(o.Recv), o.M, o, err)
 			}
-		}()
+			res = r
+		})
+		if hung {
+			res = nil
+			o.Panicked = "hang: the call did not return within " + opTimeout.String()
+			c.Note += fmt.Sprintf("op %d did not return; ", k)
+		} else if pv != nil {
+			c.Note += fmt.Sprintf("op %d panicked: %v; ", k, pv)
+			o.Panicked = fmt.Sprint(pv)
+		}
 		if res == nil {
 			continue
 		}
@@ -377,12 +534,17 @@ func run(kind string, roots []rootDesc, foreign []foreignDesc, ops []opDesc) (ca
 	}
 	vals = append(vals, w.foreign...)
 	vals = append(vals, nil)
+	nfirst := len(w.cells) + len(c.Embs)
 	c.Is = make([][]int, len(vals))
 	for i, a := range vals {
-		c.Is[i] = make([]int, len(vals))
-		for j, b := range vals {
-			c.Is[i][j] = isCode(a, b)
+		if i >= nfirst && i < nfirst+len(foreign) && hostileSource(foreign[i-nfirst].Kind) {
+			c.Is[i] = make([]int, len(vals))
+			for j := range vals {
+				c.Is[i][j] = 7 // not evaluated: errors.Is would run the source's own Is / Unwrap
+			}
+			continue
 		}
+		c.Is[i] = isRow(a, vals)
 	}
 	c.Extract = make([]int, len(w.cells))
 	for i, cl := range w.cells {
@@ -404,6 +566,20 @@ func run(kind string, roots []rootDesc, foreign []foreignDesc, ops []opDesc) (ca
 				}
 			}
 		}()
+	}
+	c.ExtrF = make([]int, len(w.foreign))
+	for i, fe := range w.foreign {
+		fe := fe
+		var f gerror.Factory
+		pv, hung := guarded(func() { f = gerror.ExtractFactoryReference(fe) })
+		switch {
+		case hung:
+			c.ExtrF[i] = 3
+		case pv != nil:
+			c.ExtrF[i] = 2
+		case f != nil:
+			c.ExtrF[i] = 1
+		}
 	}
 	return c, w
 }
@@ -470,7 +646,7 @@ func gallina(c caseJ, w *world) string {
 		fs[i] = "(" + g + ")"
 	}
 	return "{| q_roots := " + roots + "; q_foreign := " + gal.List(fs) + "; q_ops := " + ops + "; q_embs := " + gal.ListOf(c.Embs, strconv.Itoa) +
-		"; q_res := " + res + "; q_is := " + is + "; q_extract := " + ex + " |}"
+		"; q_res := " + res + "; q_is := " + is + "; q_extract := " + ex + "; q_extract_f := " + gal.ListOf(c.ExtrF, strconv.Itoa) + " |}"
 }
 
 func asciiJSON(v any) json.RawMessage {
@@ -528,19 +704,26 @@ func randRoots(r *rand.Rand) []rootDesc {
 
 func randForeign(r *rand.Rand) []foreignDesc {
 	fs := []foreignDesc{{Kind: "new", Text: "one"}, {Kind: "new", Text: "one"}}
-	kinds := []string{"new", "wrap", "ptr", "nilptr", "slice", "slice", "map", "val", "val", "wrap"}
-	for i, n := 0, 2+r.IntN(6); i < n; i++ {
+	kinds := []string{"new", "wrap", "ptr", "nilptr", "slice", "slice", "map", "val", "val", "wrap",
+		"nilderef", "nilderef", "panicerr", "holder", "ispanic", "istrue", "selfwrap", "unwrappanic",
+		"deepstruct", "deepstruct", "deeparr", "deepok", "nilgerr", "nilext"}
+	for i, n := 0, 2+r.IntN(7); i < n; i++ {
 		k := pick(r, kinds)
 		d := foreignDesc{Kind: k, Text: pick(r, []string{"p", "q"})}
 		if k == "wrap" {
 			d.Inner = r.IntN(len(fs))
+			for hostileSource(fs[d.Inner].Kind) || typedNilGerror(fs[d.Inner].Kind) { // a wrapper of such an error would inherit its behaviour as a source
+				d.Inner = r.IntN(len(fs))
+			}
 		}
 		fs = append(fs, d)
 	}
 	return fs
 }
 
-func randOps(r *rand.Rand, roots []rootDesc, nforeign, n int) ([]opDesc, int) {
+func randOps(r *rand.Rand, roots []rootDesc, fs []foreignDesc, n int) ([]opDesc, int) {
+	nforeign := len(fs)
+	kindOf := func(k int) string { return fs[k].Kind }
 	type info struct {
 		depth int
 		ext   bool
@@ -579,6 +762,9 @@ func randOps(r *rand.Rand, roots []rootDesc, nforeign, n int) ([]opDesc, int) {
 			switch x := r.IntN(10); {
 			case x < 7 || deep:
 				o.Err = ref{"foreign", r.IntN(nforeign)}
+				for typedNilGerror(kindOf(o.Err.I)) {
+					o.Err = ref{"foreign", r.IntN(nforeign)}
+				}
 			case x < 9:
 				ci := r.IntN(len(cells))
 				o.Err = ref{"cell", ci}
@@ -616,6 +802,25 @@ func corpus(out *gal.Out) {
 	emit(out, "corpus", base[:1], fs[:2], []opDesc{conv(0, "Convert", 1)})
 	emit(out, "corpus", base, fs, []opDesc{conv(0, "Convert", 1), conv(2, "ConvertS", 2), conv(3, "Convert", 7),
 		conv(1, "Convert", 6)})
+	// errors whose own methods misbehave, as Convert/ConvertS arguments on every kind of factory
+	// and as errors.Is targets: a typed-nil pointer whose Error() dereferences, an Error() that
+	// always panics, a nil-interface holder, Is/Unwrap methods that panic, answer true or cycle
+	bad := []foreignDesc{{Kind: "nilderef"}, {Kind: "panicerr", Text: "p"}, {Kind: "holder", Text: "h"}, {Kind: "ispanic", Text: "i"},
+		{Kind: "istrue", Text: "t"}, {Kind: "selfwrap", Text: "s"}, {Kind: "unwrappanic", Text: "u"}, {Kind: "wrap", Text: "w", Inner: 0},
+		{Kind: "nilderef"}, {Kind: "new", Text: "one"}}
+	emit(out, "corpus", base, bad, []opDesc{conv(0, "Convert", 0), conv(1, "ConvertS", 0), conv(2, "Convert", 0), conv(3, "ConvertS", 0),
+		conv(0, "ConvertS", 1), conv(2, "Convert", 2), conv(4, "Convert", 8), conv(0, "Convert", 7)})
+	emit(out, "corpus", base, bad, []opDesc{conv(0, "Convert", 3), conv(2, "ConvertS", 4), conv(3, "Convert", 5), conv(1, "ConvertS", 6),
+		conv(4, "Convert", 4), conv(5, "ConvertS", 9), conv(0, "Convert", 1), conv(10, "Convert", 2)})
+	// comparable TYPES whose values are not comparable (an interface field holding a slice), next to
+	// a comparable value of the same type; typed-nil pointers of gerror types as source and target
+	dp := []foreignDesc{{Kind: "deepstruct", Text: "a"}, {Kind: "deepstruct", Text: "a"}, {Kind: "deepstruct", Text: "b"},
+		{Kind: "deeparr", Text: "a"}, {Kind: "deepok", Text: "a"}, {Kind: "deepok", Text: "a"}, {Kind: "nilgerr"}, {Kind: "nilext"},
+		{Kind: "new", Text: "one"}}
+	emit(out, "corpus", base, dp, []opDesc{conv(0, "Convert", 0), conv(2, "ConvertS", 2), conv(3, "Convert", 3), conv(1, "ConvertS", 4),
+		conv(4, "Convert", 1), conv(5, "Convert", 8), conv(8, "ConvertS", 3), op(0, "Msg")})
+	emit(out, "corpus", base[:1], dp[:1], []opDesc{conv(0, "Convert", 0)})
+	emit(out, "corpus", base, dp[6:8], []opDesc{op(0, "Msg"), op(2, "Stack")})
 	// the repository's TestExtendedError_Equality shape, on every kind of factory
 	emit(out, "corpus", base, fs, []opDesc{op(0, "Stack"), op(0, "Stack"), op(1, "Stack"), op(2, "Stack"), op(2, "Stack"),
 		op(3, "Msg"), conv(2, "Convert", 0), conv(3, "Convert", 3), conv(0, "Convert", 4)})
@@ -661,7 +866,7 @@ func main() {
 		// (n of: FactoryOf base, bare base, generated ExtA, generated ExtB with hand-written Convert)
 		kinds := []rootDesc{{Kind: "base", Name: "F", IsFac: true}, {Kind: "exta", Name: "X", IsFac: true},
 			{Kind: "base", Name: "B"}, {Kind: "extb", Name: "Y", IsFac: true}}
-		fs := []foreignDesc{{Kind: "new", Text: "one"}, {Kind: "slice", Text: "a"}, {Kind: "val", Text: "v"}}
+		fs := []foreignDesc{{Kind: "new", Text: "one"}, {Kind: "slice", Text: "a"}, {Kind: "nilderef"}}
 		for ki := 0; ki < *n && ki < len(kinds); ki++ {
 			roots := []rootDesc{kinds[ki], {Kind: "base", Name: "Other", IsFac: true}}
 			for i, m1 := range methodNames {
@@ -728,7 +933,7 @@ func main() {
 			for k, nw := 0, r.IntN(3); k < nw; k++ { // wrappers of pool factories: may be converted
 				fs = append(fs, foreignDesc{Kind: "wrapg", Cell: r.IntN(len(roots))})
 			}
-			ops, ncells := randOps(r, roots, len(fs), 4+r.IntN(14))
+			ops, ncells := randOps(r, roots, fs, 4+r.IntN(14))
 			for k, nw := 0, r.IntN(3); k < nw; k++ { // foreign errors wrapping a gerror value
 				fs = append(fs, foreignDesc{Kind: "wrapg", Cell: r.IntN(ncells)})
 			}
